@@ -878,6 +878,10 @@ class RegionObjectsState:
     def resolve_futures(self, obj: Object, update_type: ObjectUpdateType):
         futures = self._object_futures.get((obj.LocalID, update_type), [])
         for fut in futures[:]:
+            if fut.done():
+                # Cancelled earlier in this same loop iteration, its done
+                # callback just hasn't had a chance to remove it yet
+                continue
             fut.set_result(obj)
 
     def cancel_futures(self, local_id: int):
